@@ -927,6 +927,58 @@ def rule_extent(ctx):
     return res.finish(2)
 
 
+def rule_reselect(ctx):
+    """solve() selects a working set, and after un-shrinking selects again and continues with the second selection.  What
+    one selection returns belongs together (the pair and everything computed for it): when the locals of the first
+    selection are overwritten from the second, a component the second destructuring discards (`_`) while the first one's
+    binding is still used afterwards is stale - it describes the first pair, the step is made for the second."""
+    res = RuleResult("R-C13-reselect", "when a selection is repeated and its results replace the first one's, no component of the first selection stays in use")
+    F = ctx.facts()
+    n_pairs = 0
+    for fn in solver_fns(F):
+        c = fn["crate"]
+        lets = []
+        for n in walk(fn["body"]):
+            if n.get("k") == "LetStmt" and n.get("init") is not None and n["pat"].get("k") == "Tuple":
+                e = peel_refs(n["init"])
+                callee = None
+                if e.get("k") == "MethodCall":
+                    callee = e["name"]
+                elif e.get("k") == "Call" and strip(e["f"]).get("k") == "Path":
+                    callee = (c.dfn(strip(e["f"]).get("def")) or {}).get("name")
+                if callee:
+                    lets.append((n, callee))
+        key = fn_key(fn)
+        for a_i, (a, ca) in enumerate(lets):
+            for b, cb in lets[a_i + 1:]:
+                if ca != cb or len(a["pat"]["pats"]) != len(b["pat"]["pats"]):
+                    continue
+                n_pairs += 1
+                res.instance("%s : `%s` selected twice" % (key, ca))
+                pa, pb = a["pat"]["pats"], b["pat"]["pats"]
+                # locals of the first selection overwritten from the second
+                replaced = False
+                for qa, qb in zip(pa, pb):
+                    if qa.get("k") == "Bind" and qb.get("k") == "Bind":
+                        for y in walk(fn["body"]):
+                            if y.get("k") == "Assign" and peel_refs(y["l"]).get("local") == qa["local"] and peel_refs(y["r"]).get("local") == qb["local"]:
+                                replaced = True
+                stale = None
+                if replaced:
+                    for qa, qb in zip(pa, pb):
+                        if qa.get("k") == "Bind" and qb.get("k") == "Wild":
+                            uses = [y for y in walk(fn["body"]) if y.get("k") == "Path" and y.get("local") == qa["local"] and (y.get("ln") or 0) > (b.get("ln") or 0)]
+                            if uses:
+                                stale = (qa, uses[0])
+                if stale:
+                    res.violate("%s : stale-selection-component:%s" % (key, stale[0]["name"]), "`%s` is selected a second time and the pair is replaced by the second result, but `%s` of the first selection stays in use (the second one is discarded with `_`): the step is taken for the new pair with data computed for the old one" % (ca, stale[0]["name"]), fn_loc(fn, stale[1].get("ln")))
+                else:
+                    res.ok()
+    if n_pairs < 1:
+        res.missing_anchor("the repeated working-set selection in SolverState::solve")
+    return res.finish(1)
+
+
 def rule_nusetup(ctx):
     """The nu formulations with two classes of variables (nu-SVC: the two labels; nu-SVR: alpha and alpha*) have a second
     equality constraint, sum of all variables = C*nu*l, besides y^T alpha = const; only the nu variant of the solver
@@ -1005,6 +1057,6 @@ def rule_nusetup(ctx):
 def rules(tier):
     from . import carry, c04
     from . import precision
-    return [rule_nusetup, rule_swap, rule_bound, rule_space, rule_sv, rule_sib, rule_snapshot, rule_rho, rule_rescale, rule_memorder, rule_extent, rule_kernel,
+    return [rule_nusetup, rule_reselect, rule_swap, rule_bound, rule_space, rule_sv, rule_sib, rule_snapshot, rule_rho, rule_rescale, rule_memorder, rule_extent, rule_kernel,
             carry.make_clone_rule("R-C13-clone", {"linfa_svm", "linfa_kernel"}, 6), carry.make_setter_rule("R-C13-override", {"linfa_svm"}, 6), c04.make_carry_rule("R-C13-carry", {"SvmParams"}, 6),
             precision.make_rule("R-C13-precision", lambda f: f["d"]["krate"] in ("linfa_svm", "linfa_kernel"), 100, "linfa-svm and linfa-kernel")]
